@@ -293,7 +293,7 @@ func H_C12_rule_maps_unmodified() {
 	rm := RM{"A,B": "required", "B": "r1", " C": "r2", "Nope": "", "A": "r2,required|need A"}
 	before := vCopyRM(rm)
 	o := &vT1{A: vStr("A"), B: vStr("B"), C: "c"}
-	switch vndChoice("entry", 7) {
+	switch vndChoice("entry", 8) {
 	case 0:
 		_ = Struct(o, rm)
 	case 1:
@@ -310,7 +310,121 @@ func H_C12_rule_maps_unmodified() {
 		_ = Struct(o, rm)
 		_ = Map(map[string]string{"A": o.A}, rm)
 		_ = Struct(o, rm)
+	case 7: // more rule maps than the entry point documents
+		rm2 := RM{"A": "r3", "C": "required"}
+		before2 := vCopyRM(rm2)
+		_ = Struct(o, rm, rm2)
+		_ = Struct(o, rm, rm2)
+		vAssert(vSameRM(rm2, before2), "C12 second rule map unmodified")
 	}
 	vAssert(vSameRM(rm, before), "C12 rule map unmodified")
+	vReach("end")
+}
+
+// Map and Url inputs that lack a required key are reported, not completed: the caller's map keeps its
+// entries (nil maps, maps in slices, pointers to maps, named key types)
+type vC12Key string
+
+func H_C12_map_input_unmodified() {
+	vPoolMode([]string{"lifo", "adversarial"}[vndChoice("pool", 2)])
+	rm := NewRule().Set("need", "required").Set("k", "required,le=3").Set("opt", "le=1")
+	v := vStr("v")
+	switch vndChoice("shape", 5) {
+	case 0:
+		m := map[string]string{"k": v}
+		err := Map(m, rm)
+		vAssert(err != nil, "C12 map input: the missing required key is reported")
+		_, has := m["need"]
+		vAssert(len(m) == 1 && m["k"] == v && !has, "C12 map input: the caller's map keeps its entries")
+	case 1:
+		var m map[string]int
+		_ = Map(m, rm)
+		vAssert(m == nil, "C12 map input: a nil map stays nil")
+	case 2:
+		ms := []map[string]string{{"k": v}, {"need": "x"}}
+		_ = Map(ms, rm)
+		vAssert(len(ms) == 2 && len(ms[0]) == 1 && len(ms[1]) == 1 && ms[0]["k"] == v, "C12 map input: maps inside a slice keep their entries")
+	case 3:
+		m := map[vC12Key]string{"k": v}
+		_ = Map(&m, rm)
+		vAssert(len(m) == 1 && m["k"] == v, "C12 map input: a map behind a pointer, with a named key type, keeps its entries")
+	case 4:
+		m := map[string]interface{}{"k": v, "opt": nil}
+		_ = Map(m, rm)
+		vAssert(len(m) == 2 && m["opt"] == nil, "C12 map input: interface-valued map keeps its entries")
+	}
+	vReach("end")
+}
+
+// functions given to one call are gone afterwards, whatever entry point took them: a later call that names
+// them gets the unknown-rule clause
+func H_C12_per_call_fns_do_not_stay() {
+	vPoolMode([]string{"lifo", "adversarial"}[vndChoice("pool", 2)])
+	vUNoFail = true
+	fn := vURule("L")
+	o := &vT3{Z: "z"}
+	switch vndChoice("first", 6) {
+	case 0:
+		_ = VarForFn("x", fn)
+	case 1:
+		_ = UrlForFn("h?k=1", validVarFieldName, fn)
+	case 2:
+		_ = ValidStructForMyValidFn(o, validVarFieldName, fn)
+	case 3:
+		_ = StructForFns(o, RM{"Z": validVarFieldName}, Name2FnMap{validVarFieldName: fn, "mine": fn})
+	case 4:
+		_ = MapFn(map[string]string{"k": "v"}, NewRule().Set("k", "mine"), Name2FnMap{"mine": fn, validVarFieldName: fn})
+	case 5:
+		_ = NewVVar().SetRules("mine").SetValidFn("mine", fn).SetValidFn(validVarFieldName, fn).Valid("x")
+	}
+	vULog = nil
+	name := []string{validVarFieldName, "mine"}[vndChoice("name", 2)]
+	var err error
+	want := "valid \"" + name + "\" is not exist, You can call SetValidFn"
+	switch vndChoice("then", 4) {
+	case 0:
+		err = Var("x", name)
+	case 1:
+		err = Struct(o, RM{"Z": name})
+		want = "\"vT3.Z\" " + want
+	case 2:
+		err = Map(map[string]string{"k": "v"}, NewRule().Set("k", name))
+	case 3:
+		err = Url("h?k=1", NewRule().Set("k", name))
+	}
+	vAssert(len(vULog) == 0, "C12 a function given to an earlier call is not run by a later one")
+	vAssert(err != nil && err.Error() == want, "C12 a name defined only for an earlier call is unknown afterwards")
+	vReach("end")
+}
+
+// rules with arguments, one call after another: the second is judged by its own arguments (separators,
+// options, patterns), not by what the first left in any package-level or pooled state
+func H_C12_real_rule_sequences() {
+	vPoolMode([]string{"lifo", "adversarial"}[vndChoice("pool", 2)])
+	calls := []struct {
+		v, rule string
+		bad     bool
+	}{
+		{"2024-02-29 10:05:59", "datetime", false},
+		{"2024/02/29 10:05:59", "datetime='/'", false},
+		{"2024-02-29 10:05:59", "datetime='/'", true},
+		{"2024.02.29T10-05-59", "datetime='.,T,-'", false},
+		{"20240229100559", "datetime=',,'", false},
+		{"2024/02/29", "date", true},
+		{"2024/02/29", "date='/'", false},
+		{"2024-02", "year2month", false},
+		{"1-2-3", "ints=-", false},
+		{"1-2-3", "ints", true},
+		{"b", "in=(a/b)", false},
+		{"b", "in=(a/c)", true},
+		{"ab", "re='^a'", false},
+		{"ab", "re='^b'", true},
+		{"x,y", "unique", false},
+	}
+	i, j := vndChoice("first", len(calls)), vndChoice("second", len(calls))
+	a, b := calls[i], calls[j]
+	vAssert((Var(a.v, a.rule) != nil) == a.bad, "C12 sequence: first call judged by its own rule")
+	vAssert((Var(b.v, b.rule) != nil) == b.bad, "C12 sequence: second call judged by its own rule")
+	vAssert((Struct(&vC18S{F: a.v}, RM{"F": a.rule}) != nil) == a.bad, "C12 sequence: third call (the first again, as a struct field)")
 	vReach("end")
 }
